@@ -57,8 +57,24 @@ pub fn oracle_files(ctx: &mut Ctx) {
         case.opts.force = false;
         // every third case: feed oxipng's own output back in (already-optimal files)
         if i % 3 == 0 {
+            case.opts.strip = HStrip::None;
             if let Outcome::Ok(b) = run_case(&case.input, &case.opts) {
                 case.input = b;
+                // half of them in a container oxipng would write differently at the same size: two kept chunks
+                // in front of IDAT in the order `bKGD pHYs` (oxipng emits bKGD after the others) - still not
+                // improvable, but its re-serialisation is not byte-identical
+                if rng.bool() {
+                    if let (Ok(chs), Ok(d)) = (crate::pngparse::parse_chunks(&case.input), crate::pngparse::decode(&case.input)) {
+                        let mut list: Vec<([u8; 4], Vec<u8>)> = chs.iter().map(|c| (c.name, c.data.clone())).collect();
+                        if let Some(at) = list.iter().position(|c| &c.0 == b"IDAT") {
+                            let bk = match d.img.ct { 3 => vec![0], 0 | 4 => vec![0, 1], _ => vec![0, 1, 0, 2, 0, 3] };
+                            list.insert(at, (*b"pHYs", vec![0, 0, 0x0b, 0x13, 0, 0, 0x0b, 0x13, 1]));
+                            list.insert(at, (*b"bKGD", bk));
+                            case.input = crate::front::rebuild(&list);
+                            st.count("optimal_but_not_canonical_inputs");
+                        }
+                    }
+                }
             }
         }
         let inp = dir.join("in.png");
